@@ -19,6 +19,7 @@ Tests reported in evidence (loose thresholds, z > 4.75 ~ p < 1e-6): chi-square u
 coverage of every interior grid cell, 1/k acceptance rate.
 """
 import concurrent.futures
+import json
 import math
 import os
 
@@ -1277,89 +1278,113 @@ def run_seq(ck, hbin, cmpst, rng):
 
 
 # ---------------------------------------------------------------------------------- PHS branch, replayed private draws
+SUP_DIM_ORDERS = [[6, 2, 3, 2, 5, 2], [4, 3, 2, 6, 2, 3], [5, 4, 3, 2, 2, 3], [2, 6, 2, 4, 3, 2]]
+
+
 def run_sup(ck, hbin, cmpst, rng):
     """samplePhsRejectBounds in lock-step: the harness replays the sampler's private RNG with an identically seeded twin
-    (`supp` prints the draw stream, `sup`/`sup3` make the real call); the model consumes the same draws: randomPhsPtr
-    (measure-weighted choice among 1-9 PHSs), transform, keepSample (1/k), satisfiesBounds, the isInAnyPhs re-test,
-    iteration accounting of the 2- and 3-argument forms."""
+    (`supp` prints the RAW draw stream: uniform01, uniformNormalVector of the PHS dimension, uniformReal, uniform01; `sup`/`sup3`
+    make the real call); the model consumes the same draws: randomPhsPtr (measure-weighted choice among 1-9 PHSs), uniformInBall
+    (pow(u, 1/dim)), transform, keepSample (1/k), satisfiesBounds, the isInAnyPhs re-test, iteration accounting of the 2- and
+    3-argument forms.  Several problems of DESCENDING and mixed dimension run in ONE harness process (fresh space / sampler / RNG
+    objects each): process-wide state left behind by an earlier, higher-dimensional problem must not leak into a later one."""
     bad = 0
-    nprob = 14 if ck.tier == "quick" else 80
-    for pi in range(nprob):
-        r = rng.fork("sup%d" % pi)
-        P = gen_problem(r, "rv", r.choice([2, 2, 3, 4]))
-        if pi % 3 == 0:       # overlapping PHSs partly outside small bounds
-            P["lo"], P["hi"] = 0.0, 1.0
-            P["starts"] = [[r.uniform(0.05, 0.95) for _ in range(P["n"])] for _ in P["starts"]]
-            P["goals"] = [[r.uniform(0.05, 0.95) for _ in range(P["n"])] for _ in P["goals"]]
-        n, lo, hi = P["n"], P["lo"], P["hi"]
-        pairs = pairs_of(P)
-        cmins = [dist(s_, g_) for s_, g_ in pairs]
-        iters = r.choice([1, 2, 5, 20, 100])
-        hdr = "phs seed=%d" % (1 + r.below(10 ** 6))
-        head = [hdr] + prob_lines(P) + ["mk direct %d %s" % (iters, f2bits(0.0))]
-        calls = []
-        for j in range(8):
-            c = max(cmins) * r.choice([1.02, 1.1, 1.3, 1.7])
-            seed = 1 + r.below(10 ** 6)
-            minc = (min(cmins) * r.uniform(1.0, 1.3)) if j % 2 else None
-            calls.append((seed, c, minc))
-        pre, rc, err = ck.run_bin(hbin, head + ["sprobe"] + ["supp %d %s" % (sd, f2bits(c)) for sd, c, _ in calls])
-        if not pre or rc != 0 or len(pre) != len(head) - 1 + 1 + len(calls):
-            ck.report({"engine": "phs", "class": "harness-failure", "what": "supp probe failed"}, script=head, observed=(pre or [])[-3:] + [str(rc), (err or "")[-600:]])
+    nscripts = 3 if ck.tier == "quick" else 16
+    for si in range(nscripts):
+        rs = rng.fork("supscript%d" % si)
+        dims = SUP_DIM_ORDERS[si % len(SUP_DIM_ORDERS)] if si < 4 else [rs.choice([2, 2, 3, 4, 5, 6]) for _ in range(6)]
+        hdr = "phs seed=%d" % (1 + rs.below(10 ** 6))
+        segs = []
+        for pi, n in enumerate(dims):
+            r = rs.fork("sup%d" % pi)
+            P = gen_problem(r, "rv", n)
+            if pi % 3 == 1:       # overlapping PHSs partly outside small bounds
+                P["lo"], P["hi"] = 0.0, 1.0
+                P["starts"] = [[r.uniform(0.05, 0.95) for _ in range(n)] for _ in P["starts"]]
+                P["goals"] = [[r.uniform(0.05, 0.95) for _ in range(n)] for _ in P["goals"]]
+            pairs = pairs_of(P)
+            cmins = [dist(s_, g_) for s_, g_ in pairs]
+            iters = r.choice([1, 2, 5, 20, 60])
+            calls = []
+            for j in range(4):
+                c = max(cmins) * r.choice([1.02, 1.1, 1.3, 1.7])
+                calls.append((1 + r.below(10 ** 6), c, (min(cmins) * r.uniform(1.0, 1.3)) if j % 2 else None))
+            segs.append({"P": P, "pairs": pairs, "cmins": cmins, "iters": iters, "calls": calls,
+                         "head": prob_lines(P) + ["mk direct %d %s" % (iters, f2bits(0.0))]})
+        probe = [hdr]
+        for sg in segs:
+            probe += sg["head"] + ["sprobe"] + ["supp %d %s" % (sd, f2bits(c)) for sd, c, _ in sg["calls"]]
+        pre, rc, err = ck.run_bin(hbin, probe)
+        if not pre or rc != 0 or len(pre) != len(probe) - 1:
+            ck.report({"engine": "phs", "class": "harness-failure", "what": "supp probe failed"}, script=[l[:200] for l in probe],
+                      observed=(pre or [])[-3:] + [str(rc), (err or "")[-600:]])
             return bad + 1
-        srots = []
-        sp = pre[len(head) - 1]
+        script, metas = [hdr], []
+        pos = 0
         okrot = True
-        for i, tok in enumerate(sp.split()[1:]):
-            R = fvec(tok.split("=", 1)[1])
-            w1, w2 = check_rot(n, pairs[i][0], pairs[i][1], R)
-            ck.count("rotation-hypotheses-checked")
-            if w1 > 1e-9 or w2 > 1e-9:
-                okrot = False
-            srots.append("srot %d %s" % (i, vb(R)))
+        for sg in segs:
+            n = sg["P"]["n"]
+            pos += len(sg["head"])
+            sp = pre[pos]
+            pos += 1
+            srots = []
+            for i, tok in enumerate(sp.split()[1:]):
+                R = fvec(tok.split("=", 1)[1])
+                w1, w2 = check_rot(n, sg["pairs"][i][0], sg["pairs"][i][1], R)
+                ck.count("rotation-hypotheses-checked")
+                if w1 > 1e-9 or w2 > 1e-9:
+                    okrot = False
+                srots.append("srot %d %s" % (i, vb(R)))
+            script += sg["head"] + srots
+            metas += [None] * (len(sg["head"]) + len(srots))
+            for (sd, c, minc) in sg["calls"]:
+                ln = pre[pos]
+                pos += 1
+                if ln.endswith("bounds-branch"):
+                    ck.count("sup:bounds-branch(skipped)")
+                    continue
+                draws = ln.split("draws=", 1)[1].replace(",", " ")
+                script.append(("sup %d %s %s" % (sd, f2bits(c), draws)) if minc is None else
+                              ("sup3 %d %s %s %s" % (sd, f2bits(minc), f2bits(c), draws)))
+                metas.append({"c": c, "minc": minc, "iters": sg["iters"], "sg": sg})
         if not okrot:
             ck.report({"engine": "phs", "class": "rotation-hypothesis", "what": "sampler PHS rotation is not a proper rotation with first column the focal axis"},
-                      script=head + ["sprobe"], observed=[sp])
+                      script=[l[:200] for l in probe], observed=[])
             bad += 1
             continue
-        body, metas = [], []
-        S = max(abs(lo), abs(hi)) + 2 * max(cmins)
-        for (sd, c, minc), ln in zip(calls, pre[len(head):]):
-            if ln.endswith("bounds-branch"):
-                ck.count("sup:bounds-branch(skipped)")
-                continue
-            draws = ln.split("draws=", 1)[1].replace(",", " ")
-            if minc is None:
-                body.append("sup %d %s %s" % (sd, f2bits(c), draws))
-            else:
-                body.append("sup3 %d %s %s %s" % (sd, f2bits(minc), f2bits(c), draws))
-            metas.append({"c": c, "minc": minc, "iters": iters})
-        script = head + srots + body
         impl, rc, err, model = ck.run_pair(hbin, DRIVER, script)
         impl = impl or []
         ck.traces_validated += 1
         ck.count("scripts:sup")
+        ck.count("sup:dimension-order=%s" % ",".join(map(str, dims)))
         if rc != 0 or len(impl) != len(script) - 1:
             ck.report({"engine": "phs", "class": "harness-failure", "what": "sup run stopped early"}, script=[l[:400] for l in script],
                       observed=impl[-2:] + [str(rc), (err or "")[-800:]])
             bad += 1
             continue
-        off = len(head) - 1 + len(srots)
-        for j, m in enumerate(metas):
-            o = impl[off + j]
-            ln = script[1 + off + j]
+        for i, m in enumerate(metas):
+            if m is None:
+                continue
+            o = impl[i]
+            ln = script[1 + i]
+            sg = m["sg"]
+            P, pairs = sg["P"], sg["pairs"]
+            lo, hi = P["lo"], P["hi"]
+            S = max(abs(lo), abs(hi)) + 2 * max(sg["cmins"])
             _, d = fields(o)
             ck.count("op:" + ln.split()[0])
-            ck.case(("sup", pi, j), True)
+            ck.case(("sup", si, i), True)
             f = None
             if "found" not in d:
                 f = "unexpected %r" % o
             else:
                 used = int(d["used"])
                 ck.count("sup:found=%s" % d["found"])
-                ck.count("sup:pairs=%d" % len(pairs))
+                ck.count("sup:dim=%d,pairs=%d" % (P["n"], len(pairs)))
                 if used < 0 or used > m["iters"]:
-                    f = "the call made %d iterations with numIters=%d" % (used, m["iters"])
+                    f = ("the call did not consume the draws of k <= numIters=%d iterations of samplePhsRejectBounds (uniform01, "
+                         "uniformNormalVector of the PHS dimension %d, uniformReal, uniform01): its generator state matches no iteration count"
+                         % (m["iters"], P["n"])) if used < 0 else "the call made %d iterations with numIters=%d" % (used, m["iters"])
                 elif d["found"] == "0" and used != m["iters"] and m["minc"] is None:
                     f = "failure reported after %d of %d iterations" % (used, m["iters"])
                 elif d["found"] == "1":
@@ -1371,20 +1396,105 @@ def run_sup(ck, hbin, cmpst, rng):
                         f = "successful sample has heuristic cost %r >= maxCost %r" % (h, m["c"])
                     elif m["minc"] is not None and h < m["minc"] - TOL * S:
                         f = "successful sample has heuristic cost %r < minCost %r" % (h, m["minc"])
-            keep = head + srots + body[:j + 1]
+            keep = script[:i + 2]   # the whole op history of the process matters (earlier problems' sampling calls included)
             if f is not None:
                 if ck.report({"engine": "phs", "class": "phs-branch-replayed", "what": f}, script=keep, observed=[o], expected=[f]):
-                    ck.log("PHS-branch oracle failure: %s" % f)
+                    ck.log("PHS-branch oracle failure (dimension order %s): %s" % (dims, f[:160]))
                     bad += 1
-            dd = cmpst.line(o, model[off + j] if off + j < len(model) else "<missing>", S)
+            dd = cmpst.line(o, model[i] if i < len(model) else "<missing>", S)
             if dd is not None and f is None:
+                # the model consumed exactly this call's draws with dimension = PHS dimension: the real call produced another sample
                 ck.disagreements += 1
-                ck.report({"engine": "phs", "class": "correspondence", "what": dd}, script=keep, observed=[o], expected=[model[off + j] if off + j < len(model) else "<missing>"],
-                          found_input=False, obligation="correspondence phs: samplePhsRejectBounds with replayed private draws vs OmplModel.Model.Phs (%s)" % dd)
+                ck.report({"engine": "phs", "class": "phs-branch-replayed", "what": "sample differs from uniformProlateHyperspheroid/transform applied to this call's own draws (PHS dimension %d, earlier problems in this process had dimensions %s): %s" % (P["n"], dims, dd)},
+                          script=keep, observed=[o], expected=[model[i] if i < len(model) else "<missing>"])
                 ck.log("model/implementation disagreement on %s: %s" % (ln[:50], dd))
                 bad += 1
             if bad >= 3:
                 return bad
+    return bad
+
+
+# ---------------------------------------------------------------------------------- radial distribution after a warm-up
+def unit_ball_radius2(x, s, g, c):
+    """rho^2 of the unit-ball pre-image of x under the PHS map (rotation-free): (t/a)^2 + (|x-centre|^2 - t^2)/b^2"""
+    cm = dist(s, g)
+    cen = [(p + q) / 2 for p, q in zip(s, g)]
+    ax = [(q - p) / cm for p, q in zip(s, g)]
+    dx = [v - w for v, w in zip(x, cen)]
+    t = sum(a * b for a, b in zip(dx, ax))
+    r2 = sum(v * v for v in dx)
+    a_, b2 = c / 2, (c * c - cm * cm) / 4
+    return (t / a_) ** 2 + max(r2 - t * t, 0.0) / b2
+
+
+def run_warm(ck, hbin, rng):
+    """distribution clause: in ONE process, after direct sampling of a higher-dimensional problem, the direct sampler of a
+    lower-dimensional one must still be uniform: u = rho^n of the unit-ball pre-image is U(0,1) (radial CDF r^n); empirical
+    CDF at 0.25/0.5/0.75 and the mean within generous bounds (8 sigma quick, 6 sigma thorough)."""
+    N = 4000 if ck.tier == "quick" else 40000
+    zmax = 8.0 if ck.tier == "quick" else 6.0
+    seq = [("rv", 6), ("rv", 2), ("se3", 3), ("se2", 2), ("rv", 5), ("rv", 3), ("rv", 2)]
+    hdr = "phs seed=%d" % (1 + rng.below(10 ** 6))
+    script = [hdr]
+    cfgs = []
+    for kind, n in seq:
+        s_ = [-0.8] + [0.1] * (n - 1)
+        g_ = [0.9] + [-0.2] * (n - 1)
+        P = {"kind": kind, "n": n, "lo": -10.0, "hi": 10.0, "starts": [s_], "goals": [g_]}
+        c = dist(s_, g_) * 1.4
+        script += prob_lines(P) + ["mk direct 100 %s" % f2bits(0.0), "bulk %s %d" % (f2bits(c), N)]
+        cfgs.append((P, c))
+    out, rc, err = ck.run_bin(hbin, script, timeout=600)
+    ck.traces_validated += 1
+    ck.count("scripts:warm-up-distribution")
+    if out is None or rc != 0 or sum(1 for l in out if l == "bulk done") != len(seq):
+        ck.report({"engine": "phs", "class": "harness-failure", "what": "warm-up distribution run died"}, script=script, observed=(out or [])[-2:] + [str(rc), (err or "")[-600:]])
+        return 1
+    bad = 0
+    f = sample_lines_fail(script, out)
+    if f is not None:
+        li, idx, what = f
+        ck.report({"engine": "phs", "class": "warm-up-soundness", "what": what}, script=truncate_at(script, li, idx), observed=[what])
+        bad += 1
+    seg = 0
+    us = [[] for _ in seq]
+    for ln in out:
+        if ln == "bulk done":
+            seg += 1
+        elif ln.startswith("s ok=1") and seg < len(seq):
+            P, c = cfgs[seg]
+            x = fvec(fields(ln)[1]["x"])[:P["n"]]
+            us[seg].append(min(unit_ball_radius2(x, P["starts"][0], P["goals"][0], c), 1.0) ** (P["n"] / 2.0))
+    res = []
+    for i, ((kind, n), u) in enumerate(zip(seq, us)):
+        ck.evaluations += len(u)
+        m = len(u)
+        rec = {"step": i, "space": kind, "n": n, "samples": m}
+        worst = 0.0
+        if m >= 500:
+            for q in (0.25, 0.5, 0.75):
+                z = (sum(1 for v in u if v < q) / m - q) / math.sqrt(q * (1 - q) / m)
+                rec["cdf(%.2f) z" % q] = round(z, 2)
+                worst = max(worst, abs(z))
+            z = (sum(u) / m - 0.5) / math.sqrt(1.0 / 12 / m)
+            rec["mean z"] = round(z, 2)
+            rec["mean"] = round(sum(u) / m, 4)
+            worst = max(worst, abs(z))
+        res.append(rec)
+        ck.case(("warm", i), m > 0)
+        if m < 500 or worst > zmax:
+            hist = ", ".join("%s%d" % kn for kn in seq[:i])
+            what = ("direct sampler is not uniform over the PHS in %s (informed dimension %d) after sampling [%s] in the same process: u = rho^n of the "
+                    "unit-ball pre-image has mean %s (uniform: 0.5), worst |z| = %.1f over CDF(0.25/0.5/0.75)/mean with %d samples"
+                    % (kind, n, hist, rec.get("mean"), worst, m))
+            li = [j for j, l in enumerate(script) if l.startswith("bulk")][i]
+            ck.report({"engine": "phs", "class": "radial-distribution-after-warm-up", "what": what}, script=script[:li + 1], observed=[json.dumps(rec)],
+                      expected=["u = rho^n ~ U(0,1): |z| <= %.0f" % zmax])
+            ck.log("distribution failure: " + what)
+            bad += 1
+            if bad >= 3:
+                break
+    ck.extra_cov["radial_distribution_after_warm_up"] = res
     return bad
 
 
@@ -1623,6 +1733,8 @@ def run(ck):
     if bad < 3:
         bad += run_sup(ck, hbin, cmpst, ck.rng.fork("sup"))
     if bad < 3:
+        bad += run_warm(ck, hbin, ck.rng.fork("warm"))
+    if bad < 3:
         bad += run_ordered(ck, hbin, cmpst, ck.rng.fork("ordered"))
     if bad < 3:
         bad += run_seq(ck, hbin, cmpst, ck.rng.fork("seq"))
@@ -1672,6 +1784,19 @@ def replay(ck, data):
             print("every successful sample is in bounds with heuristic cost below the bound: no failure on the current tree")
             return 0 if rc == 0 else 1
     print("recorded failure: %s" % rec.get("what"))
+    if not harness_only and model:
+        cm = Cmp()
+        for i, ln in enumerate(script[1:]):
+            a = impl[i] if i < len(impl) else "<missing>"
+            if "used=-1" in a:
+                print("PROPERTY FAILS at line %d: the real call did not consume this call's own draws (dimension = PHS dimension)" % (i + 1))
+                return 1
+            dd = cm.line(a, model[i] if i < len(model) else "<missing>", 1e3, mtol=1e-6, xabs=1e-9)
+            if dd is not None:
+                print("FAILS at line %d (%s): implementation and model differ: %s" % (i + 1, ln.split()[0], dd))
+                return 1
+        print("implementation and model agree on every line: no failure on the current tree")
+        return 0 if rc == 0 else 1
     if rc != 0:
         print("harness exit code %s: %s" % (rc, (err or "")[-800:]))
         return 1
